@@ -29,10 +29,11 @@ Lemma client_close_sends (w : world) : sends (w_trace (snd (client_close P w))) 
 Proof.
   unfold client_close, mbind, get_sock. destruct (w_sock w) as [sid|]; [|reflexivity].
   unfold mfinally, mtry, call, mbind, log, pop. cbn [fst snd w_script upd_trace].
-  destruct (w_script w) as [|[|x] r]; cbn -[exn_isa].
+  destruct (w_script w) as [|[|x|x] r]; cbn -[exn_isa].
   - destruct (w_sock w); reflexivity.
   - destruct (w_sock w); reflexivity.
   - destruct (exn_isa x Exception_); cbn; destruct (w_sock w); reflexivity.
+  - destruct (w_sock w); reflexivity.
 Qed.
 Lemma after_remove_sends cid p (w : world) :
   sends (w_trace (snd (after_remove P cid p w))) = sends (w_trace w).
